@@ -793,3 +793,46 @@ def gap_sweep(decls, classes=None, with_spans=False):
             for w in INNER_WS:
                 x, sp = render(inner=(i, w))
                 yield (x, ("inner", i), w, sp) if with_spans else (x, ("inner", i), w)
+
+
+# ---------------------------------------------------------------------------------------------
+# systematic single-token edits (C14, the tie K1): every declaration form, and at every token
+# position every token of the grammar's alphabet substituted, inserted (with and without a
+# separating blank) or the token deleted.  Where random mutation samples, this enumerates.
+
+EDIT_ALPHABET = ["const", "enum", "struct", "union", "switch", "case", "default", "void", "typedef",
+                 "unsigned", "int", "hyper", "float", "double", "string", "opaque",
+                 "=", ";", "{", "}", ",", "<", ">", "[", "]", "*", "(", ")", ":",
+                 "x", "int32", "unsigned_", "7", "0x1F", "/*c*/", "//n\n", "/***/"]
+
+EDIT_BASES = [
+    [("const", "A", "7")],
+    [("enum", "e", [("P", "1"), ("Q", "0x2")])],
+    [("struct", "s", [("int", "a", "", False), ("t", "b", "", True), ("unsigned int", "c", "[3]", False)])],
+    [("struct", "s", [("opaque", "o", "<>", False), ("string", "n", "<8>", False), ("t", "v", "<N>", False)])],
+    [("union", "u", "int", "k", [(["1", "2"], ("data", "hyper", "h")), (["3"], ("void",))], ("data", "t", "d"))],
+    [("union", "u", "e", "k", [(["P"], ("void",))], ("falls", ["Q"], ("void",)))],
+    [("typedef", "unsigned hyper", "t", "")],
+    [("typedef", "opaque", "o", "<16>")],
+    [("typedef", "t", "a", "[2]")],
+]
+
+
+def single_edits(bases=None, alphabet=None, kinds=("sub", "del", "ins", "glue")):
+    """yields texts; words are separated by one blank so that a substituted token stays a token,
+    except in the `glue` variants where the inserted token touches its right neighbour"""
+    for decls in (bases or EDIT_BASES):
+        toks = []
+        for d in decls:
+            toks += [t for _, t in tokens(d)]
+        yield " ".join(toks)
+        for i in range(len(toks) + 1):
+            if i < len(toks) and "del" in kinds:
+                yield " ".join(toks[:i] + toks[i + 1:])
+            for a in (alphabet or EDIT_ALPHABET):
+                if i < len(toks) and "sub" in kinds:
+                    yield " ".join(toks[:i] + [a] + toks[i + 1:])
+                if "ins" in kinds:
+                    yield " ".join(toks[:i] + [a] + toks[i:])
+                if i < len(toks) and "glue" in kinds and not a.endswith("\n"):
+                    yield " ".join(toks[:i] + [a + toks[i]] + toks[i + 1:])
